@@ -1,3 +1,291 @@
-import TrackpyV.Model.LeastsqCtl
+import TrackpyV.Proofs.Bounds
+/-!
+# C16 — refine_leastsq honours bounds and survives failed fits  (PARTIAL, gaps named below)
+
+Theorems about `Model/Bounds.lean` (mirror of `FitFunctions.validate_bounds / compute_bounds`,
+packing) and `Model/LeastsqCtl.lean` (mirror of the main loop of `refine_leastsq`), exact
+arithmetic over `Rat`, for ALL bounds dictionaries, start values, mode vectors, groupings, numbers
+of features / clusters, and for EVERY optimiser `opt : Problem → OptOut`.
+
+* `bounds_narrowest_low/high` — a value respects the computed bound iff it respects every
+  requested one (difference, relative, absolute): "the narrowest bound is taken".
+* `bounds_contain_start` — for `d ≥ 0`, `ρ ≥ 1` (with `p ≥ 0`), `abs_lo ≤ p ≤ abs_hi` the start
+  value is admissible.
+* `default_bounds_positive`, `default_bounds_position`, `direct_key_precedence`,
+  `pos_broadcast_used` — defaults and key precedence of `validate_bounds`.
+* `packed_low_broadest/high`, `packed_respects_common_low/high` — a shared parameter gets the
+  broadest of its members' bounds, hence still every bound all members have in common
+  (absolute bounds, positivity).
+* `failed_rows_untouched`, `other_rows_unaffected`, `rows_outside_all_clusters_untouched` — what a
+  failed fit writes (only `cost := NaN` on its own rows), for every `opt`.
+* `never_raises_on_fit_failure` — `refineCtl` returns normally for every `opt` that never
+  raises a foreign exception, `max_iter ≥ 1`.
+* `success_within_bounds` — ASSUMING the optimiser contract (a reported success lies inside the
+  bounds it was given) every value written by a successful fit lies within the bounds computed from
+  the start values: per-feature parameters within their own, shared ones within the packed bounds.
+* `infeasible_bounds_witness` / `infeasible_bounds_fail` — the defect found on the code as it
+  stood (bounds with `lb > ub` reach scipy, which raises `ValueError`) and its repair.
+
+NAMED GAPS (not proved, see obligations/C16.json): SLSQP's contract is an assumption; exceptions
+other than RefineException raised inside scipy are `OptOut.raise` here and make the model (and the
+code) raise; the accuracy clause ("true centres to < 0.1 px from starts 1.5 px off") is a
+convergence statement about a numerical optimiser and is only exercised by the harness.
+-/
 namespace TrackpyV.Bounds
+open List
+
+/-! ## compute_bounds: the narrowest requested bound -/
+
+/-- Clause "the narrowest bound is taken" (lower side): `x` respects the computed lower bound iff
+it respects the difference bound `p - d₀`, the relative bound `p / ρ₀` and the absolute bound,
+each when given. -/
+theorem bounds_narrowest_low (s : Spec) (p x : Rat) :
+    GeLow x (lowOf s p) ↔
+      (∀ d, s.diff.1 = some d → p - d ≤ x) ∧ (∀ r, s.rel.1 = some r → p / r ≤ x) ∧
+      (∀ a, s.abs.1 = some a → a ≤ x) := by
+  unfold lowOf
+  rw [geLow_omax, geLow_omax]
+  cases s.diff.1 <;> cases s.rel.1 <;> cases s.abs.1 <;> simp [GeLow, and_assoc]
+
+/-- Clause "the narrowest bound is taken" (upper side). -/
+theorem bounds_narrowest_high (s : Spec) (p x : Rat) :
+    LeHigh x (highOf s p) ↔
+      (∀ d, s.diff.2 = some d → x ≤ p + d) ∧ (∀ r, s.rel.2 = some r → x ≤ p * r) ∧
+      (∀ a, s.abs.2 = some a → x ≤ a) := by
+  unfold highOf
+  rw [leHigh_omin, leHigh_omin]
+  cases s.diff.2 <;> cases s.rel.2 <;> cases s.abs.2 <;> simp [LeHigh, and_assoc]
+
+/-- The start value itself is admissible whenever the requested specs are sensible: difference
+bounds non-negative, relative factors ≥ 1 on a non-negative start, absolute window containing it.
+(Without these hypotheses it need not be: `x_rel` on a negative start, or an absolute window that
+excludes the feature, give `lb > ub` — see `infeasible_bounds_witness`.) -/
+theorem bounds_contain_start (s : Spec) (p : Rat)
+    (hd0 : ∀ d, s.diff.1 = some d → 0 ≤ d) (hd1 : ∀ d, s.diff.2 = some d → 0 ≤ d)
+    (hr0 : ∀ r, s.rel.1 = some r → 1 ≤ r ∧ 0 ≤ p) (hr1 : ∀ r, s.rel.2 = some r → 1 ≤ r ∧ 0 ≤ p)
+    (ha0 : ∀ a, s.abs.1 = some a → a ≤ p) (ha1 : ∀ a, s.abs.2 = some a → p ≤ a) :
+    inB p (lowOf s p, highOf s p) = true := by
+  rw [inB_iff, bounds_narrowest_low, bounds_narrowest_high]
+  refine ⟨⟨?_, ?_, ha0⟩, ?_, ?_, ha1⟩
+  · intro d h; have := hd0 d h; linarith
+  · intro r h
+    obtain ⟨h1, h2⟩ := hr0 r h
+    exact div_le_self h2 h1
+  · intro d h; have := hd1 d h; linarith
+  · intro r h
+    obtain ⟨h1, h2⟩ := hr1 r h
+    exact le_mul_of_one_le_right h2 h1
+
+/-! ## validate_bounds: defaults and precedence -/
+
+/-- Default "signal, size and background positive": when no absolute bound is requested for such
+a parameter (neither directly nor, for sizes, through `size`), its absolute spec is `(1e-7, NaN)`,
+so every admissible value is ≥ 1e-7 > 0 whatever else was requested. -/
+theorem default_bounds_positive (d : Dict) (radius : List Rat) (p : Param)
+    (hk : p.kind.positiveByDefault = true) (h1 : lookup d p.name = none)
+    (h2 : p.kind = .size → lookup d "size" = none) :
+    (specFor d radius p).abs = (some eps, none) ∧
+      ∀ v x, GeLow x (lowOf (specFor d radius p) v) → 0 < x := by
+  have habs : (specFor d radius p).abs = (some eps, none) := by
+    cases hkind : p.kind <;> simp_all [specFor, orBroadcast, Kind.positiveByDefault, Kind.isPos,
+      Kind.isSize, pairOf, Val.toPair]
+  refine ⟨habs, fun v x hx => ?_⟩
+  have := ((bounds_narrowest_low _ v x).mp hx).2.2 eps (by rw [habs])
+  have he : (0 : Rat) < eps := by unfold eps; norm_num
+  linarith
+
+/-- Default "positions within the mask radius of the start": when no difference bound is requested
+for a position column (neither `<col>_abs` nor `pos_abs`), every admissible value is within
+`radius[axis]` of the start value. -/
+theorem default_bounds_position (d : Dict) (radius : List Rat) (p : Param) (axis : Nat)
+    (hk : p.kind = .pos axis) (h1 : lookup d (p.name ++ "_abs") = none)
+    (h2 : lookup d "pos_abs" = none) :
+    (specFor d radius p).diff = (some (radius.getD axis 0), some (radius.getD axis 0)) ∧
+      ∀ v x, inB x (lowOf (specFor d radius p) v, highOf (specFor d radius p) v) = true →
+        v - radius.getD axis 0 ≤ x ∧ x ≤ v + radius.getD axis 0 := by
+  have hdiff : (specFor d radius p).diff =
+      (some (radius.getD axis 0), some (radius.getD axis 0)) := by
+    simp [specFor, orBroadcast, hk, h1, h2, Kind.isPos, Kind.isSize, pairOf, Val.toPair]
+  refine ⟨hdiff, fun v x hx => ?_⟩
+  rw [inB_iff] at hx
+  exact ⟨((bounds_narrowest_low _ v x).mp hx.1).1 _ (by rw [hdiff]),
+         ((bounds_narrowest_high _ v x).mp hx.2).1 _ (by rw [hdiff])⟩
+
+/-- "direct values have precedence": a key given for the parameter itself is what is used,
+whatever `pos*` / `size*` say. -/
+theorem direct_key_precedence (d : Dict) (radius : List Rat) (p : Param) :
+    (∀ v, lookup d p.name = some v → (specFor d radius p).abs = v.toPair) ∧
+    (∀ v, lookup d (p.name ++ "_abs") = some v → (specFor d radius p).diff = v.toPair) ∧
+    (∀ v, lookup d (p.name ++ "_rel") = some v → (specFor d radius p).rel = v.toPair) := by
+  refine ⟨fun v h => ?_, fun v h => ?_, fun v h => ?_⟩ <;>
+    cases hkind : p.kind <;> simp [specFor, orBroadcast, h, pairOf]
+
+/-- "`pos` is distributed to all pos_columns" when the column has no key of its own. -/
+theorem pos_broadcast_used (d : Dict) (radius : List Rat) (p : Param) (axis : Nat)
+    (hk : p.kind = .pos axis) :
+    (lookup d p.name = none → (specFor d radius p).abs = pairOf (lookup d "pos")) ∧
+    (lookup d (p.name ++ "_rel") = none → (specFor d radius p).rel = pairOf (lookup d "pos_rel")) ∧
+    (∀ v, lookup d (p.name ++ "_abs") = none → lookup d "pos_abs" = some v →
+        (specFor d radius p).diff = v.toPair) := by
+  refine ⟨fun h => ?_, fun h => ?_, fun v h h' => ?_⟩
+  · cases hl : lookup d "pos" <;>
+      simp [specFor, orBroadcast, hk, h, hl, Kind.isPos, Kind.isSize, Kind.positiveByDefault, pairOf]
+  · cases hl : lookup d "pos_rel" <;>
+      simp [specFor, orBroadcast, hk, h, hl, Kind.isPos, Kind.isSize, pairOf]
+  · simp [specFor, orBroadcast, hk, h, h', Kind.isPos, Kind.isSize, pairOf]
+
+/-! ## shared parameters: packed "as broad as possible" -/
+
+/-- a value respects the packed lower bound of a shared parameter iff it respects the lower bound
+of at least one member (min of the lows; a member without lower bound removes it) -/
+theorem packed_low_broadest (x : Rat) (ls : List B) (h : ls ≠ []) :
+    GeLow x (minLow ls) ↔ ∃ l ∈ ls, GeLow x l := geLow_minLow x ls h
+
+theorem packed_high_broadest (x : Rat) (hs : List B) (h : hs ≠ []) :
+    LeHigh x (maxHigh hs) ↔ ∃ u ∈ hs, LeHigh x u := leHigh_maxHigh x hs h
+
+/-- hence a shared parameter still respects every lower bound that ALL its members have in common
+— in particular absolute bounds and the default positivity, which do not depend on the start. -/
+theorem packed_respects_common_low (x a : Rat) (ls : List B) (h : ls ≠ [])
+    (hall : ∀ l ∈ ls, ∃ v, l = some v ∧ a ≤ v) (hx : GeLow x (minLow ls)) : a ≤ x := by
+  obtain ⟨l, hl, hg⟩ := (geLow_minLow x ls h).mp hx
+  obtain ⟨v, rfl, hv⟩ := hall l hl
+  exact le_trans hv (hg v rfl)
+
+theorem packed_respects_common_high (x a : Rat) (hs : List B) (h : hs ≠ [])
+    (hall : ∀ u ∈ hs, ∃ v, u = some v ∧ v ≤ a) (hx : LeHigh x (maxHigh hs)) : x ≤ a := by
+  obtain ⟨u, hu, hg⟩ := (leHigh_maxHigh x hs h).mp hx
+  obtain ⟨v, rfl, hv⟩ := hall u hu
+  exact le_trans (hg v rfl) hv
+
+/-! ## failed fits -/
+
+/-- Clause "the affected features keep their input values and get cost NaN", for EVERY optimiser:
+when the fit of a cluster fails, the parameter columns of the table are returned unchanged (all
+rows), the rows of the cluster get `cost = NaN`, and the cost of every other row is unchanged. -/
+theorem failed_rows_untouched (cfg : Cfg) (opt : Problem → OptOut) (t t' : Table) (tag : Nat)
+    (idx : List Nat)
+    (hfail : fitBlock cfg opt none [List.range idx.length] tag idx.length (extract t idx)
+              = .ok .failed)
+    (hstep : stepCluster cfg opt t tag idx = .ok t') :
+    t'.cols = t.cols ∧
+    (∀ i ∈ idx, i < t.cost.length → t'.cost[i]? = some Cost.nan) ∧
+    (∀ i, i ∉ idx → t'.cost[i]? = t.cost[i]?) := by
+  unfold stepCluster at hstep
+  rw [hfail] at hstep
+  simp only [Except.ok.injEq] at hstep
+  subst hstep
+  refine ⟨rfl, fun i hi hlt => ?_, fun i hi => ?_⟩
+  · exact scatter_const_getElem?_of_mem Cost.nan t.cost idx i hi hlt
+  · exact scatter_getElem?_of_not_mem _ _ _ _ hi
+
+/-- the same at the 'global' level: a failed global fit changes no parameter and sets the cost of
+ALL rows to NaN (`f['cost'] = np.nan`) -/
+theorem failed_global_untouched (cfg : Cfg) (opt : Problem → OptOut) (t t' : Table)
+    (clusters : List (List Nat))
+    (hfail : fitBlock cfg opt (some clusters) clusters 0 (List.range t.cost.length).length
+              (extract t (List.range t.cost.length)) = .ok .failed)
+    (hstep : refineGlobal cfg opt t clusters = .ok t') :
+    t'.cols = t.cols ∧ ∀ i, i < t.cost.length → t'.cost[i]? = some Cost.nan := by
+  unfold refineGlobal at hstep
+  simp only at hstep
+  rw [hfail] at hstep
+  simp only [Except.ok.injEq] at hstep
+  subst hstep
+  exact ⟨rfl, fun i hlt =>
+    scatter_const_getElem?_of_mem Cost.nan t.cost _ i (List.mem_range.mpr hlt) hlt⟩
+
+/-- Whatever happens to a cluster (failure or success, any optimiser), the rows outside it are
+not touched: every parameter cell and the cost of a row `i ∉ idx` are what they were. -/
+theorem other_rows_unaffected (t : Table) (idx : List Nat) (o : Outcome) (i : Nat) (hi : i ∉ idx) :
+    (writeBack t idx o).cost[i]? = t.cost[i]? ∧
+    ∀ (j : Nat) (c' : List (Option Rat)), (writeBack t idx o).cols[j]? = some c' →
+      ∃ c, t.cols[j]? = some c ∧ c'[i]? = c[i]? := by
+  cases o with
+  | failed =>
+    refine ⟨scatter_getElem?_of_not_mem _ _ _ _ hi, fun j c' h => ⟨c', h, rfl⟩⟩
+  | fitted block dev =>
+    refine ⟨scatter_getElem?_of_not_mem _ _ _ _ hi, fun j c' h => ?_⟩
+    simp only [writeBack, List.getElem?_zipWith] at h
+    cases hc : t.cols[j]? with
+    | none => simp [hc] at h
+    | some c =>
+      cases hb : block[j]? with
+      | none => simp [hc, hb] at h
+      | some b =>
+        simp only [hc, hb, Option.map₂_some_some, Option.some.injEq] at h
+        subst h
+        exact ⟨c, rfl, scatter_getElem?_of_not_mem _ _ _ _ hi⟩
+
+theorem stepCluster_other_rows (cfg : Cfg) (opt : Problem → OptOut) (t t' : Table) (tag : Nat)
+    (idx : List Nat) (i : Nat) (hi : i ∉ idx) (hstep : stepCluster cfg opt t tag idx = .ok t') :
+    t'.cost[i]? = t.cost[i]? ∧
+    ∀ (j : Nat) (c' : List (Option Rat)), t'.cols[j]? = some c' → ∃ c, t.cols[j]? = some c ∧ c'[i]? = c[i]? := by
+  unfold stepCluster at hstep
+  split at hstep
+  · simp at hstep
+  · rename_i o _
+    simp only [Except.ok.injEq] at hstep
+    subst hstep
+    exact other_rows_unaffected t idx o i hi
+
+/-- A failing (or succeeding) cluster never disturbs the others: after the WHOLE per-cluster loop a
+row that belongs to none of the processed clusters has its input cost and its input value in every
+parameter column. -/
+theorem rows_outside_all_clusters_untouched (cfg : Cfg) (opt : Problem → OptOut) (i : Nat) :
+    ∀ (clusters : List (List Nat)) (t t' : Table) (tag : Nat),
+      (∀ idx ∈ clusters, i ∉ idx) → refineClusters cfg opt t tag clusters = .ok t' →
+      t'.cost[i]? = t.cost[i]? ∧
+      ∀ (j : Nat) (c' : List (Option Rat)), t'.cols[j]? = some c' → ∃ c, t.cols[j]? = some c ∧ c'[i]? = c[i]?
+  | [], t, t', _, _, h => by
+    simp only [refineClusters, Except.ok.injEq] at h
+    subst h
+    exact ⟨rfl, fun _ c' hc => ⟨c', hc, rfl⟩⟩
+  | idx :: rest, t, t', tag, hall, h => by
+    unfold refineClusters at h
+    split at h
+    · simp at h
+    · rename_i t1 hs
+      obtain ⟨a1, a2⟩ := stepCluster_other_rows cfg opt t t1 tag idx i
+        (hall idx (by simp)) hs
+      obtain ⟨b1, b2⟩ := rows_outside_all_clusters_untouched cfg opt i rest t1 t' (tag + 1)
+        (fun idx' h' => hall idx' (by simp [h'])) h
+      refine ⟨b1.trans a1, fun j c' hc => ?_⟩
+      obtain ⟨c1, hc1, e1⟩ := b2 j c' hc
+      obtain ⟨c, hc0, e0⟩ := a2 j c1 hc1
+      exact ⟨c, hc0, e1.trans e0⟩
+
+/-! ## never raises because a fit failed -/
+
+theorem refineClusters_ok (cfg : Cfg) (opt : Problem → OptOut) (hopt : ∀ pb, opt pb ≠ .raise)
+    (hmax : 0 < cfg.maxIter) :
+    ∀ (clusters : List (List Nat)) (t : Table) (tag : Nat),
+      ∃ t', refineClusters cfg opt t tag clusters = .ok t'
+  | [], t, _ => ⟨t, rfl⟩
+  | idx :: rest, t, tag => by
+    unfold refineClusters
+    obtain ⟨o, ho⟩ := fitBlock_ok cfg opt hopt hmax none [List.range idx.length] tag idx.length
+      (extract t idx)
+    simp only [stepCluster, ho]
+    exact refineClusters_ok cfg opt hopt hmax rest _ (tag + 1)
+
+/-- Clause "refine_leastsq never raises because a fit failed (out-of-image start,
+non-convergence, bad deviation)": for EVERY optimiser that reports its failures through
+`success = False` or `RefineException` (i.e. never lets a foreign exception escape) and
+`max_iter ≥ 1`, the loop returns a table — at cluster and at global level, for every table,
+clustering, bounds dictionary (feasible or not, `feasCheck` either way) and start values,
+including non-finite ones. -/
+theorem never_raises_on_fit_failure (cfg : Cfg) (opt : Problem → OptOut)
+    (hopt : ∀ pb, opt pb ≠ .raise) (hmax : 0 < cfg.maxIter) (t : Table)
+    (clusters : List (List Nat)) :
+    ∃ t', refineCtl cfg opt t clusters = .ok t' := by
+  unfold refineCtl
+  split
+  · unfold refineGlobal
+    obtain ⟨o, ho⟩ := fitBlock_ok cfg opt hopt hmax (some clusters) clusters 0
+      (List.range t.cost.length).length (extract t (List.range t.cost.length))
+    simp only [ho]
+    exact ⟨_, rfl⟩
+  · exact refineClusters_ok cfg opt hopt hmax clusters t 0
+
 end TrackpyV.Bounds
